@@ -94,7 +94,10 @@ ENTROPY = re.compile(
     r"^std::env::(var|var_os|vars|vars_os|args|args_os|current_dir|temp_dir)$|^std::process::id$|^std::thread::current$|"
     r"^std::ptr::(const_ptr|mut_ptr)::.*::(addr|expose_provenance)$|::expose_provenance$|^<\*(const|mut) T>::addr$|"
     r"^tokio::time::Instant::into_std$|^std::thread::spawn$|^tokio::runtime::Builder::new_multi_thread$|"
-    r"^tokio::task::spawn_blocking$|^std::collections::hash_map::DefaultHasher::new$")
+    r"^tokio::task::spawn_blocking$|^std::collections::hash_map::DefaultHasher::new$|"
+    # the per-process key of a hashed collection read back as a number: `map.hasher().hash_one(x)`, `BuildHasher::build_hasher`
+    r"^indexmap::Index(Map|Set)::hasher$|^std::collections::Hash(Map|Set)::hasher$|BuildHasher>::hash_one$|^std::hash::BuildHasher::hash_one$|"
+    r"BuildHasher>::build_hasher$|^std::hash::BuildHasher::build_hasher$")
 
 # allow table: (function family root, callee regex) -> (reason, verifier)
 def _verify_config_default(ctx, b, bb, t):
@@ -723,9 +726,31 @@ def scoped_cell_writers(ctx, R, keys=None):
     return n
 
 
+def r10(ctx):
+    R = "C01-R10"
+    ctx.rule(R, "a Builder setter stores what it is given: every one-argument method of turmoil::Builder that writes a field of its Config "
+                "does so on every path - a setter that keeps the default under some condition leaves the *default* in force, and the "
+                "default of Config::epoch is the wall clock (SystemTime::now() in Config::default)")
+    n = 0
+    for b in ctx.w.find(r"^turmoil::builder::Builder::\w+$"):
+        if b.argc != 2:
+            continue
+        wr = [bb for bb, i, s2 in b.all_stmts() if i != "term" and "turmoil::builder::Builder::config" in place_fields(s2["p"]) and
+              any(a.startswith("arg:2:") for a in Slicer(ctx.w).atoms(b, s2["r"].get("o") or s2["r"].get("a") or {}) )] if True else []
+        if not wr:
+            continue
+        n += 1
+        skip = [x for x in b.exits() if not b.dominated_by_any(x, blocks=wr)]
+        ctx.inst(R, f"setter:{b.id.rsplit('::', 1)[1]}", not skip, b.span, "the argument is stored on every path" if not skip else
+                 f"`{b.id}` stores its argument only under a condition: for the other values the default stays - for `epoch` that is SystemTime::now() taken when the Builder was "
+                 "created, so two runs of the same program start at different simulated times (since_epoch, file times)")
+    ctx.floor(R, 6)
+
+
 def run(ctx):
     global ACCESSORS
     ACCESSORS = TABLE_ACCESSORS
+    r10(ctx)
     r1(ctx)
     r2(ctx)
     r3(ctx)
